@@ -164,6 +164,45 @@ func c04KeyMutators() (zeroers, writers []string) {
 	return
 }
 
+// c04ZeroKeyTest: the function decides "no ephemeral key offered" by comparing
+// the whole key array with a zero-valued local array ("var zeroKey [N]byte";
+// x == zeroKey / x != zeroKey) and through nothing else: no helper whose name
+// mentions "zero" is consulted (crypto.ZeroKey / .Zero(), which wipe, are not
+// tests).
+func c04ZeroKeyTest(fd *ast.FuncDecl) bool {
+	if fd == nil || fd.Body == nil {
+		return false
+	}
+	zeroVars := map[string]bool{}
+	compares, helper := 0, false
+	ast.Inspect(fd.Body, func(n ast.Node) bool {
+		switch x := n.(type) {
+		case *ast.ValueSpec:
+			if at, ok := x.Type.(*ast.ArrayType); ok && len(x.Values) == 0 && src(at.Elt) == "byte" && at.Len != nil {
+				for _, nm := range x.Names {
+					zeroVars[nm.Name] = true
+				}
+			}
+		case *ast.BinaryExpr:
+			if x.Op == token.EQL || x.Op == token.NEQ {
+				for _, side := range []ast.Expr{x.X, x.Y} {
+					if id, ok := side.(*ast.Ident); ok && zeroVars[id.Name] {
+						compares++
+					}
+				}
+			}
+		case *ast.CallExpr:
+			fn := src(x.Fun)
+			low := strings.ToLower(fn)
+			if strings.Contains(low, "zero") && fn != "crypto.ZeroKey" && fn != "ZeroKey" && !strings.HasSuffix(fn, ".Zero") && fn != "crypto.ZeroBytes" {
+				helper = true
+			}
+		}
+		return true
+	})
+	return compares >= 1 && !helper
+}
+
 func genC04(g *gen) {
 	type row struct {
 		name string
@@ -218,6 +257,15 @@ func genC04(g *gen) {
 		{"RelayUDPDatagram", c04SealsWithKey(findFunc(udpFile, "Agent", "RelayUDPDatagram"))},
 		{"RelayICMPEcho", c04SealsWithKey(findFunc(icmpFile, "Agent", "RelayICMPEcho"))},
 		{"runWSICMPSender", c04SealsWithKey(findFunc(icmpFile, "Agent", "runWSICMPSender"))},
+	})
+
+	emit("gen_zero_key_tests", []row{
+		{"udp.Handler.HandleUDPOpen", c04ZeroKeyTest(findFuncInDir("internal/udp", "Handler", "HandleUDPOpen"))},
+		{"icmp.Handler.HandleICMPOpen", c04ZeroKeyTest(findFuncInDir("internal/icmp", "Handler", "HandleICMPOpen"))},
+		{"agent.handleUDPOpenAck", c04ZeroKeyTest(findFunc(udpFile, "Agent", "handleUDPOpenAck"))},
+		{"agent.deriveICMPSessionKey", c04ZeroKeyTest(findFunc(icmpFile, "", "deriveICMPSessionKey"))},
+		{"agent.deriveResponderSessionKey", c04ZeroKeyTest(findFunc(agentFile, "", "deriveResponderSessionKey"))},
+		{"shell.Handler.HandleStreamOpen", c04ZeroKeyTest(findFuncInDir("internal/shell", "Handler", "HandleStreamOpen"))},
 	})
 
 	zeroers, writers := c04KeyMutators()
